@@ -21,11 +21,12 @@ for d in rows:
     hist = ' '.join(d.get('history') or [])
     out.append('| %s | %s | %s | %s%s |' % (d['id'], ', '.join(os.path.basename(f) for f in d['files_changed']),
                                             d['check_verdict'], ('**history:** ' + hist + ' ') if hist else '', '`%s`' % sig if sig else ''))
-n = len(rows); c = sum(1 for d in rows if d['check_verdict'].startswith('CAUGHT (concrete'))
+retired = sum(1 for d in rows if d['check_verdict'].startswith('RETIRED'))
+n = len(rows) - retired; c = sum(1 for d in rows if d['check_verdict'].startswith('CAUGHT (concrete'))
 nc = sum(1 for d in rows if d['check_verdict'].startswith('CAUGHT (no'))
-first_miss = sum(1 for d in rows if d.get('history'))
+first_miss = sum(1 for d in rows if d.get('history') and not d['check_verdict'].startswith('RETIRED'))
 out += ['', '%d changes: %d caught with a concrete failing input, %d caught without one (broken proof or correspondence '
         'only), %d missed. %d of them were missed or only half caught by the check as first built and led to a '
-        'strengthening (history column).' % (n, c, nc, n - c - nc, first_miss)]
+        'strengthening (history column). %d further change(s) retired: a repair of the underlying defect in /repo made them harmless.' % (n, c, nc, n - c - nc, first_miss, retired)]
 open('/verif/seeded/README.md', 'w').write('\n'.join(out) + '\n')
 print('\n'.join(out[-1:]))
